@@ -106,6 +106,16 @@ class Tree:
                     raise AnalysisError('cannot parse {}: {}'.format(rel, err))
         self._class_cache = {}
         self._func_cache = {}
+        # spelling of function-local variables is not part of any property: alpha-rename to the reference spelling
+        self.renamed = {}
+        if not os.environ.get('VERIF_NO_CANON'):
+            from . import canon
+            ref = canon.load_reference()
+            for rel, mod in self.modules.items():
+                canon.normalise_module(mod.tree)
+                got = canon.apply_to_module(mod.tree, ref.get(rel))
+                if got:
+                    self.renamed[rel] = got
 
     # ---- coverage numbers
     def stats(self):
@@ -489,6 +499,9 @@ def call_name(call):
 
 def is_logging_call(call):
     name = call_name(call) or ''
+    if not name and isinstance(call.func, ast.Attribute) and isinstance(call.func.value, ast.Call) and \
+            (call_name(call.func.value) or '').split('.')[-1] == 'getLogger':
+        name = 'logging.' + call.func.attr  # logging.getLogger(...).debug(...)
     parts = name.split('.')
     return len(parts) >= 2 and parts[-1] in ('debug', 'info', 'warning', 'error', 'critical', 'exception', 'log') and (
         'logger' in parts[-2].lower() or parts[-2] == 'logging')
